@@ -749,7 +749,6 @@ func (e *Env) call(x *ECall) Val {
 	return Val{}
 }
 
-
 // ---------- conjunct splitting and printing ----------
 
 type conjunct struct {
